@@ -57,6 +57,30 @@ fn p_opt_methods() {
     kani::cover!(model.is_some(), "Some");
     kani::cover!(model.is_none(), "None");
 }
+struct Pz;
+impl Drop for Pz { fn drop(&mut self) { unsafe { DROPS += 1 } } }
+#[repr(align(64))]
+struct Pal { v: u32, heap: Box<u8> }
+impl Drop for Pal { fn drop(&mut self) { unsafe { DROPS += 1 } } }
+struct Pbig([u64; 24]);
+fn opt_class<T>(mk: fn() -> T, counted: bool) {
+    let some: bool = kani::any();
+    let o: Option<T> = if some { Some(mk()) } else { None };
+    let c: COption<T> = o.into();
+    assert!(c.is_some() == some && c.as_ref().is_some() == some, "C12 From<Option> keeps the variant (any payload class)");
+    let mut c = c;
+    let t = c.take();
+    assert!(t.is_some() == some && !c.is_some() && drops() == 0, "C12 take moves the payload without dropping (any payload class)");
+    let back: COption<T> = t.into();
+    let o2: Option<T> = back.into();
+    assert!(o2.is_some() == some && drops() == 0, "C12 conversions move the payload without dropping (any payload class)");
+    drop(o2); drop(c);
+    assert!(drops() == (some && counted) as u32, "C12 payload dropped exactly once (any payload class)");
+    kani::cover!(some, "some");
+}
+#[kani::proof] fn p_opt_class_zst_drop() { opt_class::<Pz>(|| Pz, true); }
+#[kani::proof] fn p_opt_class_aligned() { opt_class::<Pal>(|| Pal { v: 1, heap: Box::new(2) }, true); }
+#[kani::proof] fn p_opt_class_big() { opt_class::<Pbig>(|| Pbig([1; 24]), false); }
 //@ prefix=p_opt_unwrap_none kind=panic clause=COption::None.unwrap() panics
 #[kani::proof]
 #[kani::should_panic]
